@@ -32,7 +32,7 @@ import tempfile
 import weakref
 
 STREAMS = ['endpoints-parse', 'lifecycle-close-everywhere', 'lifecycle-random', 'lifecycle-reactions']
-THEOREMS = ['connect_fires_once', 'first_reachable_in_order', 'lost_fails_everything_once']
+THEOREMS = ['connect_fires_once', 'first_reachable_in_order', 'lost_fails_everything_once', 'endpoint_prefix_table']
 TRUSTED_BASE = [
     'Twisted semantics assumed by the model and emulated by the harness: connectionLost is delivered once, no data '
     'after it; transport.loseConnection() is followed by connectionLost(ConnectionDone); an exception escaping '
@@ -1286,7 +1286,7 @@ def _run(ctx, M, tmp):
                               inp=c, observed=impl, expected=want)
 
     # ---- lifecycle: base histories, and the close injected at every point of each
-    nbase = ctx.scale(quick=110, thorough=1500)
+    nbase = ctx.scale(quick=300, thorough=2500)
     bases, everywhere = [], []
     for _ in range(nbase):
         entries, addr, steps = gen_history(rng, tmp)
